@@ -76,6 +76,19 @@ CmdSpec ParseCmd(const string& line) {
     else if (k == "gen") c.gen = v != "0";
     else if (k == "copy") c.copy = v != "0";
     else if (k == "depall") c.depall = v != "0";
+    else if (k == "dall") c.dall = v != "0";
+    else if (k == "dsp") {
+      string t = Unhex(v);
+      size_t a = 0;
+      while (a < t.size()) {
+        size_t b = t.find(';', a);
+        if (b == string::npos) b = t.size();
+        string kv = t.substr(a, b - a);
+        size_t e = kv.find('=');
+        if (e != string::npos) c.dspell[kv.substr(0, e)] = kv.substr(e + 1);
+        a = b + 1;
+      }
+    }
   }
   c.valid = !c.outs.empty();
   return c;
@@ -109,9 +122,11 @@ string DepfileEscape(const string& n) {
 }
 
 string DepfileText(const CmdSpec& s) {
-  string d = DepfileEscape(s.outs[0]) + ":";
-  if (s.depall) for (const string& r : s.reads) d += " " + DepfileEscape(r);
-  for (const string& h : s.hidden) d += " " + DepfileEscape(h);
+  string d = DepfileEscape(s.Spelled(s.outs[0]));
+  if (s.dall) for (size_t i = 1; i < s.outs.size(); ++i) d += " " + DepfileEscape(s.Spelled(s.outs[i]));
+  d += ":";
+  if (s.depall) for (const string& r : s.reads) d += " " + DepfileEscape(s.Spelled(r));
+  for (const string& h : s.hidden) d += " " + DepfileEscape(s.Spelled(h));
   d += "\n";
   return d;
 }
